@@ -77,7 +77,8 @@ func propC03(c *Ctx) {
 	for _, e := range []string{"a[0]", "a[1]", "a[2]", "a[5]", "a[-1]", "e[N]", "a[e]", "1 / a", "1 % a", "1 << a", "a >> N", "a ^ N", "N ^ a",
 		"a << e", "a >> e", "a / e", "a % e", "a ^ e", "a[e]", "a * e", "a - e", "a AND e", "a OR e", "a XOR e", "a >= e", "a <> e",
 		"a IN e", "a NOT IN e", "Min(a, e)", "Max(a, N, e)", "Sum(a, e)", "If(a, 1, 2)", "Choose(a, 1, 2)", "Abs(a)", "Sqrt(a)", "Trunc(a)",
-		"Contains(a, e)", "Date(a)", "DayOfWeek(a)", "TimeSpan(a)", "Array(a, e)[1]", "-a", "NOT a", "a IS NULL", "a + e", "a = e", "a < e", "a LIKE e"} {
+		"Contains(a, e)", "Date(a)", "DayOfWeek(a)", "TimeSpan(a)", "TimeSpan(1, 2, 3, 4, a)", "TimeSpan(1, 2, 3, a, 5)", "TimeSpan(1, 2, a)", "TimeSpan(a, 2, 3, 4)", "TimeSpan(1, a, e, 4, 5)",
+		"Date(2020, 1, 2, 3, 4, 5, a)", "Date(2020, 1, 2, 3, 4, a)", "Date(a, 1, 2)", "Date(2020, a)", "Date(2020, 1, 2, a, e)", "If(a, e, N)", "Choose(a, e, N, 1)", "Round(a) + Ceil(e)", "Contains(1, a)", "Array(a, e)[1]", "-a", "NOT a", "a IS NULL", "a + e", "a = e", "a < e", "a LIKE e"} {
 		for _, env := range boundaryEnvs {
 			for _, env2 := range boundaryEnvs[:8] {
 				mixed := []binding{env[0], env2[1], env[2]}
